@@ -456,6 +456,7 @@ class Tensor(object):
     def all(self, dim=None): return all_(self)
     def any(self, dim=None): return any_(self)
     def sqrt(self): return sqrt(self)
+    def pow(self, p): return self.__pow__(p)
     def reshape(self, *shape): return reshape(self, *shape)
     def view(self, *shape): return reshape(self, *shape)
     def flatten(self): return reshape(self, -1)
@@ -1614,6 +1615,10 @@ def matmul(a, b):
         return a._pv_matmul(b)
     if hasattr(b, "_pv_rmatmul"):
         return b._pv_rmatmul(a)
+    if isinstance(a, Tensor) and isinstance(b, Tensor) and "opq" in (a.kind, b.kind) and len(a._shape) >= 2 and len(b._shape) >= 2:
+        # opaque dense matrices: shape inference only (the value is congruent in the operands)
+        shape = list(bcast_shapes(a._shape[:-2], b._shape[:-2])) + [a._shape[-2], b._shape[-1]]
+        return _taped("matmul_opq", [a, b], _opaque_result("matmul", [a, b], shape, _res_dtype(a, b)), _no_vjp("matmul"))
     raise OutOfSubset("torch.matmul on abstract tensors (use a domain-specific harness)")
 
 
